@@ -71,7 +71,12 @@ func (n *JournalNode) Setattr(ctx context.Context, req *fuse.SetattrRequest, res
 	// Only allow size updates.
 	if req.Valid.Size() {
 		if req.Size != 0 {
-			return syscall.EINVAL
+			// Not a commit: SQLite cuts a finalised PERSIST-mode journal
+			// down to its journal_size_limit.
+			if err := n.db.ShrinkJournal(ctx, int64(req.Size)); err != nil {
+				return ToError(fmt.Errorf("shrink journal: %w", err))
+			}
+			return n.Attr(ctx, &resp.Attr)
 		}
 		if err := n.db.TruncateJournal(ctx); err != nil {
 			return fmt.Errorf("truncate journal: %w", err)
